@@ -1,0 +1,33 @@
+//go:build verif
+
+// Machine-checked contracts (Gobra-style //@ comments) for the verification harness in /verif.
+// This file contains no code; it is compiled only under the build tag "verif".
+package core
+
+// ---------------------------------------------------------------------------------------------
+// replay protection of EVM transactions (C09)
+
+//@ spec msgFrom(m Iface) common.Address
+//@ spec msgNonce(m Iface) Int
+//@ spec msgCheckNonce(m Iface) Bool
+//@ spec sdbNonce(db Iface, a common.Address) Int
+
+//@ func (*StateTransition).preCheck
+//@   props C09
+//@   requires st != nil && st.msg != nil && st.state != nil
+//@   assigns  allbut(StateTransition), st.gas, st.initialGas
+//@   ensures  [applied-only-at-current-nonce] result == nil && msgCheckNonce(st.msg) ==> old(sdbNonce(st.state, msgFrom(st.msg))) == msgNonce(st.msg)
+
+//@ func (*StateTransition).TransitionDb
+//@   props C09
+//@   requires st != nil && st.msg != nil && st.state != nil && st.evm != nil
+//@   atcall SetNonce assert [nonce-raised-by-exactly-one-for-the-sender] arg0 == msgFrom(st.msg) && arg1 == (sdbNonce(st.state, msgFrom(st.msg)) + 1) % 18446744073709551616
+//@   ensures  [nonce-raised-at-most-once-here] calls(SetNonce) <= 1
+//@   ensures  [precheck-failure-changes-nothing] calls(preCheck) == 1 && (calls(SetNonce) == 1 || calls(Create) == 1 ==> calls(useGas) == 1)
+
+// a failed transaction returns before the journal is finalised, so the snapshot taken by the caller is still valid
+//@ func ApplyTransaction
+//@   props C09
+//@   requires config != nil && statedb != nil && header != nil && tx != nil && usedGas != nil && gp != nil
+//@   ensures  [error-means-not-finalised] result2 != nil ==> calls(Finalise) == 0 && result0 == nil
+//@   ensures  [success-finalises-once] result2 == nil ==> calls(Finalise) == 1 && result0 != nil
